@@ -127,6 +127,11 @@ impl<'a> DeferredReader<'a> {
         self.pos_in_buf += n;
         // SAFETY ^ we already subtracted n from len and checked for overflow so we cannot overflow
         // the buffer here.
+        #[cfg(flussab_verif)]
+        crate::verif::emit(crate::verif::Event::Adv {
+            n,
+            position: self.position(),
+        });
     }
 
     #[inline(never)]
@@ -308,6 +313,8 @@ impl<'a> DeferredReader<'a> {
 
         // Only realign if we have advanced over sufficiently more data to
         let realign = self.pos_in_buf > self.chunk_size * 2;
+        #[cfg(flussab_verif)]
+        let verif_len_before = self.buf.len();
 
         if realign {
             self.buf
@@ -325,6 +332,10 @@ impl<'a> DeferredReader<'a> {
         }
 
         let target_end = self.pos_in_buf + self.valid_len + self.chunk_size;
+        #[cfg(flussab_verif)]
+        let verif_shrink = self.buf.len() < verif_len_before;
+        #[cfg(flussab_verif)]
+        let verif_valid_before = self.valid_len;
 
         // Make sure we have enough buffer space for another chunk
         if self.buf.len() < target_end {
@@ -357,6 +368,42 @@ impl<'a> DeferredReader<'a> {
             break;
         }
 
+        #[cfg(flussab_verif)]
+        {
+            let start = self.pos_in_buf + verif_valid_before;
+            let end = self.pos_in_buf + self.valid_len;
+            crate::verif::emit(crate::verif::Event::Rd {
+                offered: target_end - start,
+                outcome: if self.io_error.is_some() {
+                    crate::verif::ReadOutcome::Error
+                } else if self.complete {
+                    crate::verif::ReadOutcome::Eof
+                } else {
+                    crate::verif::ReadOutcome::Bytes(end - start)
+                },
+                bytes: &self.buf[start..end],
+                realign,
+                shrink: verif_shrink,
+                state: self.verif_state(),
+            });
+        }
+
         true
+    }
+
+    /// Returns the internal fields of this reader (verification builds only).
+    #[cfg(flussab_verif)]
+    pub fn verif_state(&self) -> crate::verif::ReaderState {
+        crate::verif::ReaderState {
+            pos_in_buf: self.pos_in_buf,
+            valid_len: self.valid_len,
+            pos_of_buf: self.pos_of_buf,
+            mark_in_buf: self.mark_in_buf,
+            buf_len: self.buf.len(),
+            buf_cap: self.buf.capacity(),
+            complete: self.complete,
+            io_error: self.io_error.is_some(),
+            chunk_size: self.chunk_size,
+        }
     }
 }
